@@ -27,8 +27,10 @@
 (*     ns_time         py  Namespace.j2 "Generated at: now_utc"             (closed = only with auditing)   *)
 (*     model_abspath   py  pickled _MODEL_ carries source_file_path         (closed = location-free)        *)
 (*     assert_abspath  c/cpp base.j2 static_assert message: T.source_file_path (closed = file name)         *)
-(*     model_cache     py  pickled _MODEL_ carries PyDSDL's lazily filled caches, i.e. which of the type's   *)
-(*                         (transitive) dependencies this process has rendered before (closed = cache-free)  *)
+(*     model_cache     py  pickled _MODEL_ carries PyDSDL's lazily filled bit-length caches of every type it  *)
+(*                         reaches; rendering a type fills its own and its direct dependencies' caches, so    *)
+(*                         the pickle tells which INDIRECT dependencies this process has met before           *)
+(*                                                                          (closed = cache-free pickle)    *)
 (*     pp_carry        LimitEmptyLines counter survives from one file to the next (closed = reset per file)  *)
 (*     include_order   c/cpp include list in composite_types iteration order (closed = sorted)               *)
 (*     html_order      html nested-namespace listing in set order            (closed = natural_sort)         *)
@@ -63,7 +65,7 @@ VARIABLES types, user, dep, lang, audit, open,   \* the stimulus: inputs, option
           todo,                              \* loop 2: names of namespace_index not yet visited
           kids,                              \* kids[n]: Namespace._nested_namespaces of n
           stack,                             \* the recursion of _recursive_data_type_and_namespace_generator
-          touched,                           \* process state: types rendered so far (their model objects' lazy caches are filled)
+          touched,                           \* process state: types whose model object has its lazy caches filled
           owner,                             \* process state: language whose filter owns the plain filter name
           order,                             \* files written by the current run, in order
           orders,                            \* orders[r]: the order of the completed run r (observation)
@@ -173,7 +175,7 @@ TypeContent(t, incl) ==
      includes |-> IF lang \in {"c", "cpp"} THEN incl ELSE <<>>,
      mpath    |-> IF lang = "py" /\ "model_abspath" \in open THEN A.loc ELSE 0,
      gz       |-> IF lang = "py" /\ "gzip_mtime" \in open THEN A.clock ELSE 0,
-     cache    |-> IF lang = "py" /\ "model_cache" \in open THEN touched \cap DepsStar(t) ELSE {},
+     cache    |-> IF lang = "py" /\ "model_cache" \in open THEN touched \cap (DepsStar(t) \ Deps(t)) ELSE {},
      lead     |-> Lead,
      owner    |-> owner]
 
@@ -216,7 +218,7 @@ EmitType ==
     /\ LET t == Head(Top.pt) IN
        /\ \E incl \in (IF "include_order" \in open THEN Perms(Deps(t)) ELSE {SortT(Deps(t))}) :
               Write(<<"type", t>>, TypeContent(t, incl), TRank(t) % 2)
-       /\ touched' = touched \cup {t}
+       /\ touched' = touched \cup {t} \cup Deps(t)
     /\ stack' = SetTop([Top EXCEPT !.pt = Tail(@)])
     /\ UNCHANGED <<Stim, amb, run, pc, pend, idx, todo, kids, owner, orders>>
 
